@@ -17,6 +17,7 @@ Observation of one run = [[events, outcome] per op] + events while the object is
 """
 import gc
 import sys
+import types
 import warnings
 
 from harness.drivers.common import read_payload, emit
@@ -68,7 +69,14 @@ def _action(table, s, r, val):
 
 
 def make_body(kind, table, log):
-    """a fresh function object of the requested kind whose behaviour is `table`"""
+    """a fresh function object of the requested kind whose behaviour is `table`.
+    kind 'tgen': a generator function marked @types.coroutine (a generator function for inspect, whose
+    result may also be awaited)"""
+    if kind == 'tgen':
+        body = types.coroutine(make_body('gen', table, log))
+        body.__name__ = body.__qualname__ = 'body_tgen'
+        body.__doc__ = 'table-driven tgen'
+        return body
     if kind == 'gen':
         def body(*args):
             s, r, val = 0, 's', 0
@@ -245,8 +253,17 @@ def tool_free():
     return sys.monitoring.get_tool(sys.monitoring.PROFILER_ID) is None
 
 
+def awaited(f):
+    """a native coroutine function that awaits f(): how an event loop / another coroutine uses a coroutine
+    function or a @types.coroutine generator function"""
+    async def outer():
+        return await f()
+    return outer
+
+
 def run_protocol_case(c):
-    """c: kind, table, ops, prof (None | 'lp' | 'cp'), how ('call' | 'method': wrap via prof(f) or prof.wrap_*(f))"""
+    """c: kind, table, ops, prof (None | 'lp' | 'cp'), how ('call' | 'method': wrap via prof(f) or prof.wrap_*(f)),
+    via ('direct' | 'await': the operations go to a coroutine that awaits the callable's result)"""
     log = []
     kind = c['kind']
     body = make_body(kind, c['table'], log)
@@ -255,10 +272,14 @@ def run_protocol_case(c):
     if c.get('prof'):
         prof = make_profiler(c['prof'], log)
         if c.get('how') == 'method':
-            f = {'gen': prof.wrap_generator, 'coro': prof.wrap_coroutine, 'agen': prof.wrap_async_generator}[kind](body)
+            f = {'gen': prof.wrap_generator, 'coro': prof.wrap_coroutine, 'agen': prof.wrap_async_generator,
+                 'tgen': prof.wrap_callable}[kind](body)
         else:
             f = prof(body)
-    obs = drive(f, kind, c['ops'], log)
+    if c.get('via') == 'await':
+        obs = drive(awaited(f), 'coro', c['ops'], log)
+    else:
+        obs = drive(f, 'gen' if kind == 'tgen' else kind, c['ops'], log)
     leaked = not tool_free()
     if leaked:
         # a leaked enable would poison every later case: release it and say so
@@ -287,6 +308,9 @@ def main():
     if 'extra' in payload:
         from harness.drivers import c03_objects
         out['extra'] = c03_objects.run(payload['extra'])
+    if 'kern' in payload:
+        from harness.drivers import c03_kern
+        out['kern'] = c03_kern.run(payload['kern'], payload['tmp'])
     out['unraisable'] = len(_UNRAISABLE)
     emit(out)
 
